@@ -226,6 +226,21 @@ impl Drop for Disk {
     }
 }
 
+
+/// Leftovers next to an output path (a temporary file of an earlier save that was killed before its rename, an
+/// editor's backup): a program that writes through a neighbour of the output path meets them.
+pub fn stale_sibling(d: &mut Rng, name: &str) -> String {
+    match d.below(7) {
+        0 => format!("{}.tmp", name),
+        1 => format!(".{}.tmp", name),
+        2 => format!("{}~", name),
+        3 => format!("{}.new", name),
+        4 => format!("{}.part", name),
+        5 => format!("{}.bak", name),
+        _ => format!("{}.tmp~", name),
+    }
+}
+
 fn render_plan(plan: &[PlanEntry]) -> String {
     let mut s = String::new();
     for e in plan {
